@@ -1,5 +1,5 @@
 """C04 Output-scale calibration is the documented estimator and is scale-equivariant."""
-from contracts import calibration, ivp, solvers
+from contracts import calibration, ivp, lemmas, solvers
 
 LEVEL = "proof"
 
@@ -11,4 +11,5 @@ def contracts():
         out.append(solvers.step_contract(ivp.Cfg(layout, "mle", "filter", "ts0", q=1, d=2)))
         out.append(solvers.step_contract(ivp.Cfg(layout, "dynamic", "filter", "ts0", q=1, d=2)))
         out.append(solvers.step_contract(ivp.Cfg(layout, "mle", "fixedpoint", "ts1", q=1, d=1)))
+    out.append(lemmas.equivariance_contract())
     return out
